@@ -383,6 +383,11 @@ impl Process {
         if let Some(prev) = prev {
             task.set_prev(Some(prev.id.clone()));
         }
+        // a branch never reports to the client, not even when it is closed
+        // (skipped by an action, aborted) before it has been initialised
+        if task.is_kind(NodeKind::Branch) {
+            task.set_emit_disabled(true);
+        }
         #[cfg(feature = "verif")]
         crate::verif::on_create_task(&task);
         self.push_task(task.clone());
